@@ -286,6 +286,17 @@ fn main() {
             });
             return;
         }
+        "cipher-probe" => {
+            let scratch = std::path::PathBuf::from(&args[2]);
+            sos_verif_harness::init_audit(&scratch);
+            let rt = tokio::runtime::Builder::new_multi_thread().worker_threads(2).enable_all().build().unwrap();
+            rt.block_on(async {
+                if let Err(e) = account_world::cipher_probe(&scratch).await {
+                    eprintln!("probe error: {e:?}");
+                }
+            });
+            return;
+        }
         "crypto" => {
             // replay crypto <cases.ndjson> <scratch> <trace-out> <quick|thorough> <ops> <seed>
             let scratch = std::path::PathBuf::from(&args[3]);
